@@ -48,7 +48,7 @@ def cases(draw):
         maxdeg = min(3, nnodes - 1)
     else:
         maxdeg = 1
-    fam = draw(st.sampled_from(["power", "poly2", "poly3"][:maxdeg]))
+    fam = draw(st.sampled_from(["power", "poly2", "poly3"][:maxdeg] + ["generic"]))
     s["family"] = fam
     s["metamorphic"] = draw(st.sampled_from(["none", "none", "shift", "scale"]))
     s["static_rows"] = draw(st.sampled_from(["as-is", "as-is", "reversed", "shuffled"]))     # the static table has its own volume column
@@ -77,6 +77,8 @@ def observe(ctx, s, ds, qs, case, static_override=None):
             "iso": {tuple(k.voigt): np.array(v) for k, v in calc.modulus_isothermal.items()},
             "adi": {tuple(k.voigt): np.array(v) for k, v in calc.modulus_adiabatic.items()},
             "keys": [tuple(k.voigt) for k in calc.modulus_keys],
+            "freq": np.array(calc.freq_array, dtype=float),
+            "mode_gamma": [np.array(x, dtype=float) for x in calc.mode_gamma],
         }
     return obs
 
@@ -99,8 +101,14 @@ def reference(ds, s, obs):
     stat, keys = static_moduli(ds, V, s["apply_system"])
     e_best, e_coarse = strain_fractions(ds, V)
     out = {}
+    if s["family"] == "generic":
+        # no interpolant is exact for these spectra: the reference takes the interpolated (omega, gamma, V dgamma/dV) as
+        # observed on the calculator (their mutual consistency is C11's business) and checks the rest of the pipeline
+        nu_, gam_, g_ = obs["freq"], obs["mode_gamma"][1], obs["mode_gamma"][0]
+    else:
+        nu_, gam_, g_ = ds.nu(V), ds.gamma(V), ds.dgamma(V)
     for tag, e in (("best", e_best), ("coarse", e_coarse)):
-        ph = PhononReference(ds.nu(V), ds.gamma(V), ds.dgamma(V), ds.weights, T, V,
+        ph = PhononReference(nu_, gam_, g_, ds.weights, T, V,
                              obs["pressures"], obs["static_p"], obs["cv"], frame_of)
         out[tag] = {k: ph.value(k, e) for k in keys}
         if not ds.spec["lattice"]:
@@ -128,6 +136,16 @@ def oracle(ctx, s, ds, qs, case):
         raise PropertyViolation("C05/static-pressure", "static_p_array[%d]=%r, reference %r (coarse %r)" % (
             i, obs["static_p"][i], best[i], coarse[i]), case)
     # ---- tensors ---------------------------------------------------------------------------------------------------
+    mg = obs["mode_gamma"]
+    if (len(mg) != 3 or mg[2].shape != mg[1].shape or np.max(np.abs(mg[2] - mg[1] ** 2)) > 1e-12 * (1 + np.max(mg[1] ** 2))
+            or np.any(obs["freq"][:, 0, :3] != 0) or obs["freq"].shape != (len(V), ds.nq, ds.npm)):
+        raise PropertyViolation("C05/mode-arrays", "interpolated mode arrays are not (ntv,nq,np) [V dgamma/dV, gamma, gamma^2] with Gamma-acoustic zeros", case)
+    if s["family"] != "generic":
+        # exact-interpolant families: the interpolated spectrum must be the analytic one
+        m_ = np.ones((ds.nq, ds.npm), dtype=bool)
+        m_[0, :3] = False
+        if np.max(np.abs(np.log(np.where(m_, obs["freq"], 1.0)) - np.log(np.where(m_, ds.nu(V), 1.0)))) > 1e-6:
+            raise PropertyViolation("C05/interpolated-frequencies", "interpolated frequencies differ from the (exactly representable) spectrum", case)
     stat, keys, ref = reference(ds, s, obs)
     if sorted(obs["keys"]) != sorted(keys):
         raise PropertyViolation("C05/keys", "components %r, expected %r" % (sorted(obs["keys"]), sorted(keys)), case)
